@@ -1,19 +1,250 @@
-//! talk engine (ops starting with `t`).
+//! talk engine (ops starting with `t`): C20, the life cycle of `TalkRequest` objects handed to the
+//! application by the real `Service` (scripted handler).
+//!   tnew KEY | tdeliver PEER ADDR RID PROTO PAYLOAD | trespond #i PAYLOAD | tdrop #i | tshutdown
 #![allow(unused)]
 use crate::rng::Rng;
 use crate::util::*;
 use crate::{Runner, Stats};
+#[path = "eng_service.rs"]
+pub mod svc;
+use discv5::enr::NodeId;
+use discv5::verif::service::{HandlerIn, HandlerOut, Request, RequestBody, RequestId, Response, ResponseBody};
+use discv5::{IpMode, NodeAddress};
+use svc::*;
 
 #[derive(Default)]
-pub struct TalkRunner;
+pub struct TalkRunner {
+    r: ServiceRunner,
+    /// (request id, source) of every delivered request, responses seen so far, expected payload
+    meta: Vec<(Vec<u8>, NodeAddress, usize)>,
+    shut: bool,
+}
 
-impl Runner for TalkRunner {
-    fn reset(&mut self) {}
-    fn step(&mut self, _line: &str, out: &mut Vec<String>, _stats: &mut Stats) {
-        out.push("bad-op".into());
+impl TalkRunner {
+    /// Drains the handler channel; returns the canonical items and counts responses per request.
+    fn drain(&mut self, out: &mut Vec<String>) -> Vec<String> {
+        self.r.settle();
+        let mut items = Vec::new();
+        if let Some(inst) = self.r.insts.get_mut(&'T') {
+            if let Some(hin) = inst.hin.as_mut() {
+                while let Ok(m) = hin.try_recv() {
+                    match m {
+                        HandlerIn::Response(a, r) => {
+                            items.push(show_resp(&a, &r));
+                            let mut matched = false;
+                            for (rid, src, n) in self.meta.iter_mut() {
+                                if *rid == r.id.0 && *src == a {
+                                    *n += 1;
+                                    matched = true;
+                                    if *n > 1 {
+                                        out.push(format!("!MON C20 second-response-to-one-request rid={}", hx(rid)));
+                                    }
+                                    break;
+                                }
+                            }
+                            if !matched {
+                                out.push(format!("!MON C20 response-to-unknown-request rid={}", hx(&r.id.0)));
+                            }
+                            if !matches!(r.body, ResponseBody::Talk { .. }) {
+                                out.push("!MON C20 talk-answered-with-other-type".into());
+                            }
+                        }
+                        _ => items.push("other".into()),
+                    }
+                }
+            }
+        }
+        items
     }
 }
 
-pub fn gen_case(_rng: &mut Rng, _tier: &str, _profile: &str, _stats: &mut Stats) -> Vec<String> {
-    Vec::new()
+impl Runner for TalkRunner {
+    fn reset(&mut self) {
+        self.r.reset();
+        self.r.hold_talks = true;
+        self.meta.clear();
+        self.shut = false;
+    }
+
+    fn step(&mut self, line: &str, out: &mut Vec<String>, stats: &mut Stats) {
+        if self.r.rt.is_none() {
+            self.reset();
+        }
+        let t: Vec<&str> = line.split(' ').collect();
+        let noop = |out: &mut Vec<String>| {
+            out.push("!OP tnop".into());
+            out.push("noop".into());
+        };
+        match t.as_slice() {
+            ["tnew", key] => {
+                let Some(seed) = key.strip_prefix('k').and_then(|s| s.parse::<u64>().ok()) else { return noop(out) };
+                self.reset();
+                let Some(enr) = build_rec(seed, 1, "4", 0) else { return noop(out) };
+                let rt = self.r.rt.as_ref().unwrap();
+                let Some(inst) = Inst::start(rt, 'T', seed, enr, IpMode::Ip4, Filter::All, 16, 16, false, 10) else { return noop(out) };
+                self.r.insts.insert('T', inst);
+                out.push("!OP tnew".into());
+                out.push("ok".into());
+            }
+            _ if !self.r.insts.contains_key(&'T') => noop(out),
+            ["tdeliver", peer, addr, rid, proto, payload] => {
+                let (Some(id), Some(a), Some(ridb), Some(p), Some(q)) = (parse_peer(peer), parse_addr(addr), unhx(rid), unhx(proto), unhx(payload)) else {
+                    return noop(out);
+                };
+                let na = NodeAddress { socket_addr: a, node_id: NodeId::new(&id) };
+                // request ids are unique per source in a real exchange; keep the ledger unambiguous
+                if self.meta.iter().any(|(r, s, _)| *r == ridb && *s == na) {
+                    return noop(out);
+                }
+                let req = Request { id: RequestId(ridb.clone()), body: RequestBody::Talk { protocol: p.clone(), request: q.clone() } };
+                let before = self.r.talks.len();
+                let _ = self.r.insts[&'T'].hout.try_send(HandlerOut::Request(na.clone(), Box::new(req)));
+                let so = self.r.observe('T', false, false);
+                let mut items = self.drain(out);
+                let delivered = self.r.talks.len() - before;
+                if delivered == 1 {
+                    self.meta.push((ridb.clone(), na, 0));
+                    items.push(format!("talkreq:#{}:{}", self.r.talks.len(), hx(&ridb)));
+                    stats.bump("t.delivered");
+                } else if !self.shut {
+                    out.push(format!("!MON C20 talk-request-not-delivered-to-application n={}", delivered));
+                }
+                if !so.responses.is_empty() {
+                    out.push("!MON C20 response-before-application-acted".into());
+                }
+                let open = self.r.talks.iter().filter(|t| t.is_some()).count();
+                if open >= 2 {
+                    stats.bump("t.concurrent-requests");
+                }
+                out.push(format!("!OP tdeliver {} {} {} {} {}", hex::encode(id), sock_num(&a), rid, proto, payload));
+                out.push(if items.is_empty() { "-".into() } else { items.join(" ") });
+            }
+            ["trespond", idx, payload] => {
+                let (Some(i), Some(p)) = (idx.strip_prefix('#').and_then(|s| s.parse::<usize>().ok()), unhx(payload)) else { return noop(out) };
+                if i == 0 || i > self.r.talks.len() || self.r.talks[i - 1].is_none() {
+                    return noop(out);
+                }
+                let tr = self.r.talks[i - 1].take().unwrap();
+                let before = self.meta[i - 1].2;
+                let res = no_panic(std::panic::AssertUnwindSafe(move || tr.respond(p.clone())));
+                let items = self.drain(out);
+                let after = self.meta[i - 1].2;
+                let rs = match &res {
+                    None => {
+                        out.push("!MON C20 respond-panicked".into());
+                        "panic"
+                    }
+                    Some(Ok(())) => "ok",
+                    Some(Err(_)) => "err",
+                };
+                let expect = format!(":talk:{}", payload);
+                if self.shut {
+                    stats.bump("t.respond-after-shutdown");
+                    if rs != "err" || after != before {
+                        out.push(format!("!MON C20 respond-after-shutdown res={} sent={}", rs, after - before));
+                    }
+                } else {
+                    stats.bump("t.responded");
+                    if rs != "ok" || after - before != 1 || !items.iter().any(|s| s.ends_with(&expect)) {
+                        out.push(format!("!MON C20 respond-not-exactly-one-response res={} sent={}", rs, after - before));
+                    }
+                }
+                out.push(format!("!OP trespond {} {}", i, payload));
+                out.push(format!("res={} {}", rs, if items.is_empty() { "-".into() } else { items.join(" ") }));
+            }
+            ["tdrop", idx] => {
+                let Some(i) = idx.strip_prefix('#').and_then(|s| s.parse::<usize>().ok()) else { return noop(out) };
+                if i == 0 || i > self.r.talks.len() || self.r.talks[i - 1].is_none() {
+                    return noop(out);
+                }
+                let tr = self.r.talks[i - 1].take().unwrap();
+                let before = self.meta[i - 1].2;
+                let res = no_panic(std::panic::AssertUnwindSafe(move || drop(tr)));
+                let items = self.drain(out);
+                let after = self.meta[i - 1].2;
+                if res.is_none() {
+                    out.push("!MON C20 drop-panicked".into());
+                }
+                if self.shut {
+                    stats.bump("t.drop-after-shutdown");
+                    if after != before {
+                        out.push("!MON C20 response-after-shutdown".into());
+                    }
+                } else {
+                    stats.bump("t.dropped");
+                    if after - before != 1 || !items.iter().any(|s| s.ends_with(":talk:-")) {
+                        out.push(format!("!MON C20 drop-not-exactly-one-empty-response sent={}", after - before));
+                    }
+                }
+                out.push(format!("!OP tdrop {}", i));
+                out.push(if items.is_empty() { "-".into() } else { items.join(" ") });
+            }
+            ["tshutdown"] => {
+                if self.shut {
+                    return noop(out);
+                }
+                let items = self.drain(out);
+                if let Some(inst) = self.r.insts.get_mut(&'T') {
+                    inst.discv5.shutdown();
+                }
+                self.r.settle();
+                // the handler task ends with the service: its end of the channel goes away
+                if let Some(inst) = self.r.insts.get_mut(&'T') {
+                    inst.hin = None;
+                }
+                self.shut = true;
+                stats.bump("t.shutdowns");
+                out.push("!OP tshutdown".into());
+                out.push("ok".into());
+            }
+            _ => noop(out),
+        }
+    }
+}
+
+pub fn gen_case(rng: &mut Rng, tier: &str, _profile: &str, stats: &mut Stats) -> Vec<String> {
+    let mut ops = vec![format!("tnew k{}", rng.range(1, 50))];
+    let n = rng.range(6, 40);
+    let mut delivered = 0u64;
+    let mut shut = false;
+    for _ in 0..n {
+        let c = rng.below(100);
+        if delivered == 0 || c < 35 {
+            let peer = rng.range(100, 104);
+            let a = format!("10.0.{}.{}/{}", rng.below(3), rng.range(1, 4), rng.range(1, 3) + 9000);
+            let n = rng.range(1, 8) as usize;
+            let rid = hex::encode(rng.bytes(n));
+            let n = rng.below(4) as usize;
+            let proto = hx(&rng.bytes(n));
+            let n = rng.below(12) as usize;
+            let payload = hx(&rng.bytes(n));
+            ops.push(format!("tdeliver k{} {} {} {} {}", peer, a, rid, proto, payload));
+            delivered += 1;
+        } else if c < 65 {
+            let n = match rng.below(4) {
+                0 => 0,
+                1 => 1,
+                _ => rng.below(40) as usize,
+            };
+            let payload = hx(&rng.bytes(n));
+            ops.push(format!("trespond #{} {}", rng.range(1, delivered), payload));
+        } else if c < 92 {
+            ops.push(format!("tdrop #{}", rng.range(1, delivered)));
+        } else if !shut {
+            ops.push("tshutdown".into());
+            shut = true;
+        }
+    }
+    // act on everything that is still held (half of the cases after a shutdown)
+    if !shut && rng.chance(1, 2) {
+        ops.push("tshutdown".into());
+    }
+    for i in 1..=delivered {
+        if rng.chance(1, 2) {
+            ops.push(format!("trespond #{} {}", i, hx(&rng.bytes(3))));
+        } else {
+            ops.push(format!("tdrop #{}", i));
+        }
+    }
+    ops
 }
